@@ -135,6 +135,11 @@ def history_request(case, obs):
             ops.append(["write", w + "/" + op[1], subst_tmpl(op[2], world), op[3]])
         elif op[0] == "delete":
             ops.append(["delete", w + "/" + op[1]])
+        elif op[0] == "render_w":
+            # a render during which the rendered file is replaced right after the engine has read it: for the
+            # model a render (of the old content) followed by the write
+            ops.append(["render", subst(op[1], world), sorted(model_ctx(op[2]).items())])
+            ops.append(["write", w + "/" + op[3], subst_tmpl(op[4], world), op[5]])
         else:
             ops.append(["render", subst(op[1], world), sorted(model_ctx(op[2]).items())])
 
@@ -327,7 +332,18 @@ def gen_history_case(rng, i, nested=False, nops=None):
     n = nops if nops is not None else rng.randrange(3, 11)
     for _ in range(n):
         r = rng.random()
-        if r < 0.55:
+        if r < 0.04 and not cfg.get("root"):
+            # the rendered top-level file is rewritten while it is being rendered (just after it was read): vinegar's own
+            # loader takes the file's version BEFORE reading it, so the next render notices. Not generated with
+            # root_dir: there jinja2.FileSystemLoader reads first and takes the mtime afterwards, and such an edit is
+            # never noticed (third-party behaviour, outside the property's histories of atomic edits and renders;
+            # DESIGN.md 11.3, residual observations)
+            top = rng.choice(tops)
+            versions[top] = versions.get(top, 0) + 1
+            stamp[0] += rng.choice([1, 2, 7])
+            t = gen_tmpl(rng, cfg, 0, top, versions[top], flat, False, pools)
+            ops.append(["render_w", top, gen_ctx(rng, "c"), ROOT + "/" + top, t, stamp[0]])
+        elif r < 0.55:
             ops.append(["render", render_name(rng, cfg, rng.choice(tops)), gen_ctx(rng, "c")])
         elif r < 0.93:
             pool = rng.choice([tops, l1, l1, l2, l2])
